@@ -184,6 +184,7 @@ contract(
     ensures=_md_post,
     axioms=axioms,
     native_call=_md_native, gen=_md_gen, crosscheck=False, refute=False,
+    bounded="2 and 3 complex operands (the operand loop is unrolled); the matrix ring is abstract (any dimension)",
     note="nested function of matmul (complex branch); operands are the real and imaginary parts of 2 or 3 complex matrices as elements of "
          "an abstract (non-commutative) matrix ring; the postcondition is the fully expanded real / imaginary part of the product",
 )
@@ -269,6 +270,7 @@ contract(
     LINALG + "::_scalar_mat_op::_mat", props=["C10"], locate=_locate_mat,
     params=dict(x=OneOf(d1=_vec(1), d2=_vec(4), d3=_vec(9)), op=Const(SOpaque("userfn", "user_op")), kwargs=Const(CDict())),
     ensures=_mat_post,
+    bounded="matrix dimension 1..3 (the reconstruction loops are unrolled); entries symbolic",
     native_ok=False, crosscheck=False, refute=False,
     note="nested function of _scalar_mat_op (used by det); `op` is an arbitrary function of the matrix entries; dimensions 1..3 enumerated "
          "(bounded in the dimension, symbolic in the entries)",
@@ -372,6 +374,7 @@ contract(
     ensures=_prune_post,
     axioms=axioms,
     native_call=_prune_native, gen=_prune_gen, crosscheck=False, refute=False,
+    bounded="T in {1, 2} and Ntrunc = 2 (loops unrolled); matrices and vectors are abstract, so the statement is dimension-free per entry",
     slice_note="from `tmpmat = np.empty(...)` to the end of the loop over timeslices; live-in variables self (= basematrix), evecs, Ntrunc = 2",
     note="eigenvectors and timeslice matrices are elements of the abstract matrix ring; T in {1, 2}, Ntrunc = 2 enumerated (the loops are "
          "unrolled); natively the whole method is run on a 3 x 3 correlator matrix that is NOT symmetric",
@@ -516,6 +519,7 @@ contract(
     ensures=_gevp_all_post,
     axioms=axioms,
     native_call=_gevp_all_native, gen=_gevp_all_gen, crosscheck=False, refute=False,
+    bounded="T = 4, N = 3, t0 in {0, 1}, three patterns of undefined timeslices (the time loop is unrolled)",
     note="T = 4, N = 3, t0 in {0, 1}, patterns of undefined timeslices enumerated; matrices abstract; the solver is a stub "
          "(its own contract is separate); symmetric input",
     not_decided=["sort='Eigenvector' (_sort_vectors: determinants of permuted vector sets)", "vector_obs=True", "the symmetrisation branch"],
